@@ -30,6 +30,7 @@ func runC16(c *engine.Ctx) {
 	c16Encodable(c)
 	c16LockBalance(c, li)
 	c16ErrorPathDeref(c)
+	c16Panics(c)
 }
 
 func isMutexType(t types.Type) bool {
